@@ -11,12 +11,16 @@ package par2
 
 // The filesystem behind fileIO does not touch gopar's memory; what it does to
 // files is the subject of the ghost-state contracts of C02/C18.
+// gIOFailed: some read, listing or write failed, other than a read of a file that does not exist (C18).
+//@ ghost gIOFailed bool = false
 //@ func (fileIO).ReadFile
 //@   assume-contract environment: ioutil.ReadFile / memfs
 //@   modifies nothing
+//@   ghost-set gIOFailed = gIOFailed || (result1 != nil && !isNotExist(result1))
 //@ func (fileIO).FindWithPrefixAndSuffix
 //@   assume-contract environment: directory listing
 //@   modifies nothing
+//@   ghost-set gIOFailed = gIOFailed || result1 != nil
 
 
 // ---- packet.go -------------------------------------------------------------
@@ -157,8 +161,9 @@ package par2
 //@     invariant forall(i, 0, len(decoderInputFileInfos), decoderInputFileInfos[i].byteCount >= 1 && len(decoderInputFileInfos[i].checksumPairs) >= 1)
 
 //@ func newDecoder
-//@   props C13 C19 C06
+//@   props C13 C19 C06 C18
 //@   requires fileIO != nil && delegate != nil
+//@   ensures implies(gIOFailed && !old(gIOFailed), result1 != nil)
 //@   ensures implies(result1 == nil, result0 != nil && decoderOK(result0) && result0.numGoroutines == numGoroutines)
 //@   ensures implies(result1 == nil, forall(i, 0, len(result0.recoverySet), infoOK(result0.recoverySet[i], result0.sliceByteCount)))
 //@   loop 0
@@ -188,10 +193,11 @@ package par2
 // the closure below; carrying it through the nested slice-of-maps structure to
 // a postcondition is not attempted.)
 //@ func (*Decoder).LoadParityData
-//@   props C13 C19 C06
+//@   props C13 C19 C06 C18
 //@   requires decoderOK(d)
+//@   ensures implies(gIOFailed && !old(gIOFailed), result != nil)
 //@   loop 0
-//@     invariant d == old(d) && decoderOK(d)
+//@     invariant d == old(d) && decoderOK(d) && gIOFailed == old(gIOFailed)
 //@     invariant cap(parityFiles) == 0 || fresh(parityFiles)
 //@   loop 1
 //@     invariant d == old(d) && decoderOK(d)
@@ -201,10 +207,11 @@ package par2
 //@     invariant cap(parityShards) == 0 || fresh(parityShards)
 
 //@ func (*Decoder).LoadParityData$1
-//@   props C13 C19 C06
+//@   props C13 C19 C06 C18
 //@   nilable *
 //@   requires d != nil && decoderOK(d)
 //@   modifies nothing
+//@   ensures implies(gIOFailed && !old(gIOFailed), result1 != nil)
 //@   ensures implies(result1 == nil && result0 != nil, result0.recoveryPackets != nil && mapall(result0.recoveryPackets, v, len(v.data) == d.sliceByteCount))
 //@   loop 0
 //@     invariant visitedall(parityFile.recoveryPackets, v, len(v.data) == d.sliceByteCount)
@@ -229,9 +236,10 @@ package par2
 //@ ghost gRepairOK bool = false
 //@ ghost gRepairNotEnough bool = false
 //@ func repair
-//@   props C20 C02
+//@   props C20 C02 C18
 //@   skip-safety
 //@   requires fileIO != nil
+//@   ensures implies(gIOFailed && !old(gIOFailed), result1 != nil)
 //@   ensures implies(result1 == nil, gRepairCalls == old(gRepairCalls) + 1 && gRepairOK)
 //@   ensures implies(gRepairCalls == old(gRepairCalls) + 1, (result1 == nil) == gRepairOK && hastype(result1, "github.com/akalin/gopar/rsec16.NotEnoughParityShardsError") == gRepairNotEnough)
 //@   ensures gRepairCalls == old(gRepairCalls) || gRepairCalls == old(gRepairCalls) + 1
@@ -251,10 +259,12 @@ package par2
 //@   ghost-set gWritesOK = ite(result == nil, gWritesOK + 1, gWritesOK)
 //@   ghost-set gLastWriteOK = (result == nil)
 //@   ghost-set gLastWritePath = path
+//@   ghost-set gIOFailed = gIOFailed || result != nil
 
 //@ func (*Decoder).Repair
-//@   props C02 C20 C14 C19
+//@   props C02 C20 C14 C19 C18
 //@   skip-safety
+//@   ensures implies(gIOFailed && !old(gIOFailed), result1 != nil)
 //@   ghost-set gRepairCalls = gRepairCalls + 1
 //@   ghost-set gRepairOK = (result1 == nil)
 //@   ghost-set gRepairNotEnough = hastype(result1, "github.com/akalin/gopar/rsec16.NotEnoughParityShardsError")
@@ -263,9 +273,9 @@ package par2
 //@   assert-call append : gLastWriteOK && gLastWritePath == path
 //@   ensures len(result0) == gWritesOK - old(gWritesOK)
 //@   loop 3
-//@     invariant len(repairedPaths) == gWritesOK - old(gWritesOK)
+//@     invariant len(repairedPaths) == gWritesOK - old(gWritesOK) && gIOFailed == old(gIOFailed)
 //@   loop 4
-//@     invariant len(repairedPaths) == gWritesOK - old(gWritesOK)
+//@     invariant len(repairedPaths) == gWritesOK - old(gWritesOK) && gIOFailed == old(gIOFailed)
 
 // The adapters to the real filesystem pass their arguments and results straight through.
 //@ func (defaultFileIO).WriteFile
@@ -276,3 +286,69 @@ package par2
 //@   props C02 C18
 //@   assert-call io/ioutil.ReadFile : arg0 == path
 //@   ensures result1 == lastcall("io/ioutil.ReadFile", 1)
+
+// ---- C18: every I/O failure (other than "file does not exist" on a read) surfaces as an error ----
+
+//@ func (*Decoder).fillFileIntegrityInfos
+//@   props C18
+//@   skip-safety
+//@   ensures implies(gIOFailed && !old(gIOFailed), result3 != nil)
+
+//@ func (*Decoder).LoadFileData
+//@   props C18
+//@   skip-safety
+//@   ensures implies(gIOFailed && !old(gIOFailed), result != nil)
+//@   loop 0
+//@     invariant gIOFailed == old(gIOFailed)
+//@   loop 1
+//@     invariant gIOFailed == old(gIOFailed)
+//@   loop 2
+//@     invariant gIOFailed == old(gIOFailed)
+//@   loop 3
+//@     invariant gIOFailed == old(gIOFailed)
+
+//@ func verify
+//@   props C18
+//@   skip-safety
+//@   requires fileIO != nil
+//@   ensures implies(gIOFailed && !old(gIOFailed), result1 != nil)
+
+//@ func (*Encoder).LoadFileData
+//@   props C18
+//@   skip-safety
+//@   ensures implies(gIOFailed && !old(gIOFailed), result != nil)
+//@   loop 0
+//@     invariant gIOFailed == old(gIOFailed)
+
+//@ func (*Encoder).ComputeParityData
+//@   props C18
+//@   skip-safety
+//@   ensures gIOFailed == old(gIOFailed)
+//@   loop 0
+//@     invariant gIOFailed == old(gIOFailed)
+
+//@ func (*Encoder).Write
+//@   props C18 C02
+//@   skip-safety
+//@   ensures implies(gIOFailed && !old(gIOFailed), result != nil)
+//@   loop 0
+//@     invariant gIOFailed == old(gIOFailed)
+//@   loop 1
+//@     invariant gIOFailed == old(gIOFailed)
+//@   loop 2
+//@     invariant gIOFailed == old(gIOFailed)
+
+//@ func newEncoder
+//@   props C18
+//@   skip-safety
+//@   ensures gIOFailed == old(gIOFailed)
+//@   loop 0
+//@     invariant gIOFailed == old(gIOFailed)
+
+//@ func create
+//@   props C18
+//@   skip-safety
+//@   requires fileIO != nil
+//@   ensures implies(gIOFailed && !old(gIOFailed), result != nil)
+//@   loop 0
+//@     invariant gIOFailed == old(gIOFailed)
